@@ -687,6 +687,9 @@ func (in *Interp) callClosure(c *Closure, args []Value, caller *Frame) Value {
 	if c == nil {
 		in.goPanic("call of nil func")
 	}
+	if c.native != nil {
+		return c.native(in, args)
+	}
 	all := args
 	if len(c.binds) > 0 {
 		// free variables are passed after params in our register layout
